@@ -274,8 +274,8 @@ example : linL [.loopB [.ev ⟨0xa6, 2⟩] [.xbrk, .call 0 []] 2] = true ∧
     brkOkL false [.loopB [.ev ⟨0xa6, 2⟩] [.xbrk, .call 0 []] 2] = true := by decide
 example : linL [.loop [.ev ⟨0xa6, 24⟩] 2] = true ∧ noBreakL [.loop [.ev ⟨0xa6, 24⟩] 2] = true := by decide
 
-/-! ## Whole songs of the plain fragment (third layer; the fragment and the extra hypotheses are those of
-`C02_song_roundtrip_partial`, Properties/C02.lean) -/
+/-! ## Whole songs of the fragment (third layer; the fragment and the extra hypotheses — drum mode included:
+`RoutinesOK`, `LoopDrumOK` — are those of `C02_song_roundtrip_partial`, Properties/C02.lean) -/
 
 theorem isCmd_mask (x : Tk) : SongTop.isCmd (Timeline.maskTk x) = SongTop.isCmd x := by
   cases x with
@@ -323,7 +323,7 @@ theorem takeWhile_mark {a r : List Tk} (ha : Tk.loopMark ∉ a) :
     simp only [List.cons_append, List.takeWhile, this]
     rw [ih (fun h => ha (by simp [h]))]
 
-/-- **C03 for whole songs of the plain fragment.**  For every channel track in `Timeline.inDomain`
+/-- **C03 for whole songs of the fragment (drum mode included).**  For every channel track in `Timeline.inDomain`
 whose expected tick string is defined, with `start` = the position the track table lists:
  * the instruction walker, started there as `SeqWf.checkAll` starts it, accepts the stream — every
    instruction is decoded inside the chunk, loop starts and ends are balanced, every loop-break
@@ -332,7 +332,7 @@ whose expected tick string is defined, with `start` = the position the track tab
  * however often the loop-back jump is followed, with whatever fuel and tick limit, the
    interpreter stops only with `finished`, `fuel` or `tooManyTicks`: it never reads outside the
    chunk, never meets an unknown opcode, a missing length or an empty loop stack — through all
-   calls and returns;
+   calls, drum-routine calls and returns;
  * with the jump followed twice, a run that finishes passes at least one tick of note or rest time
    between the two loop marks: the loop-back jump spans time. -/
 theorem C03_song_wellformed_partial (song : Song) (d : DataInfo) (vol : Option String) (pf : Timeline.Platform)
